@@ -79,10 +79,17 @@ fn mk_export(dir: &str, sizes: &[u64]) {
     }
 }
 
+/// this case runs with the writeback cache configured and negotiated (`wb=1` in the case line)
+static WB: std::sync::atomic::AtomicBool = std::sync::atomic::AtomicBool::new(false);
+fn wb() -> bool {
+    WB.load(std::sync::atomic::Ordering::Relaxed)
+}
+
 fn mk_fs(dir: &str, seal: bool, no_open: bool, adio: bool, second_session: bool) -> PassthroughFs<()> {
     let cfg = Config {
         root_dir: dir.to_string(),
         seal_size: seal,
+        writeback: wb(),
         no_open,
         allow_direct_io: adio,
         cache_policy: CachePolicy::Always,
@@ -93,6 +100,9 @@ fn mk_fs(dir: &str, seal: bool, no_open: bool, adio: bool, second_session: bool)
     let mut cap = FsOptions::ASYNC_READ;
     if no_open {
         cap |= FsOptions::ZERO_MESSAGE_OPEN;
+    }
+    if wb() {
+        cap |= FsOptions::WRITEBACK_CACHE;
     }
     fs.init(cap).unwrap();
     if second_session {
@@ -115,7 +125,8 @@ struct Side {
     inodes: HashMap<usize, u64>, // file index -> inode
     opened: Vec<u64>,            // k-th handle (0 = placeholder)
     hfile: Vec<usize>,           // file of the k-th handle
-    hflags: Vec<u32>,            // flag word it was opened with
+    hflags: Vec<u32>,            // flag word stored with the handle (open flags, then the last differing request word)
+    happ: Vec<bool>,             // is the handle's descriptor in append mode (by the open / F_SETFL history)?
 }
 
 impl Side {
@@ -128,7 +139,7 @@ impl Side {
             let e = fs.lookup(&ctx, 1, &CString::new(format!("f{}", i)).unwrap()).unwrap();
             inodes.insert(i, e.inode);
         }
-        Side { dir: dir.to_string(), fs, inodes, opened: vec![], hfile: vec![], hflags: vec![] }
+        Side { dir: dir.to_string(), fs, inodes, opened: vec![], hfile: vec![], hflags: vec![], happ: vec![] }
     }
     fn handle(&self, k: usize) -> u64 {
         if k == 0 { 0 } else { self.opened.get(k - 1).copied().unwrap_or(0) }
@@ -152,6 +163,8 @@ impl Side {
                             self.opened.push(h.unwrap_or(0));
                             self.hfile.push(f);
                             self.hflags.push(n(p[2]) as u32);
+                            // with the writeback cache the descriptor is opened without O_APPEND
+                            self.happ.push(n(p[2]) as i32 & libc::O_APPEND != 0 && !wb());
                             "ok".into()
                         }
                         Err(e) => format!("e{}", errno(&e)),
@@ -167,6 +180,7 @@ impl Side {
                                 self.opened.push(h.unwrap_or(0));
                                 self.hfile.push(f);
                                 self.hflags.push(n(p[2]) as u32);
+                                self.happ.push(n(p[2]) as i32 & libc::O_APPEND != 0 && !wb());
                             }
                             "ok".into()
                         }
@@ -223,7 +237,7 @@ impl Side {
 
 /// does the request stay within the current sizes (the specification's reading, independent of
 /// the code and of the model)?
-fn within(op: &str, sizes: &[u64], exists: &dyn Fn(usize) -> bool) -> bool {
+fn within(op: &str, sizes: &[u64], exists: &dyn Fn(usize) -> bool, append: bool) -> bool {
     let p: Vec<&str> = op.split(':').collect();
     let n = |s: &str| -> u128 { s.parse().unwrap_or(0) };
     let f = n(p[1]) as usize;
@@ -235,7 +249,6 @@ fn within(op: &str, sizes: &[u64], exists: &dyn Fn(usize) -> bool) -> bool {
             !(exists(f) && fl & libc::O_TRUNC != 0 && fl & libc::O_EXCL == 0)
         }
         "wr" => {
-            let append = n(p[3]) as i32 & libc::O_APPEND != 0;
             let start = if append { fsize } else { n(p[5]) };
             start + n(p[4]) <= fsize
         }
@@ -325,10 +338,32 @@ fn run_case(out: &mut Out, tmp: &str, id: u64, pr: &Probe, seal: bool, no_open: 
     let mut nhandles = 0usize;
     let mut step = |op: String, a: &mut Side, twin: &mut Option<Side>, outs: &mut Vec<String>, ops: &mut Vec<String>, cur: &mut Vec<u64>, created: &mut Vec<usize>, nhandles: &mut usize| {
         let exists = |f: usize| f < nfiles || a.inodes.contains_key(&f);
-        let w = within(&op, cur, &exists);
+        // append mode of the descriptor this WRITE lands on: the request's flag word is applied
+        // with F_SETFL when it differs from the word stored with the handle (before the seal
+        // check); otherwise the descriptor is as it was opened / last set.  A fresh descriptor
+        // (no_open, or no such handle) takes the word's O_APPEND.
+        let mut append = false;
+        {
+            let p: Vec<&str> = op.split(':').collect();
+            if p[0] == "wr" {
+                let word: u32 = p[3].parse().unwrap_or(0);
+                let f: usize = p[1].parse().unwrap_or(0);
+                let k: usize = p[2].parse().unwrap_or(0);
+                append = word as i32 & libc::O_APPEND != 0;
+                if !no_open && k >= 1 && k <= a.hflags.len() && a.hfile.get(k - 1).copied() == Some(f) && a.opened.get(k - 1).copied().unwrap_or(0) != 0 {
+                    if word != a.hflags[k - 1] {
+                        a.hflags[k - 1] = word;
+                        a.happ[k - 1] = append;
+                    } else {
+                        append = a.happ[k - 1];
+                    }
+                }
+            }
+        }
+        let w = within(&op, cur, &exists, append);
         let before_handles = a.opened.len();
         // breadcrumb: the history up to and including this request, should the process die in it
-        fbrh::util::crumb(&format!("seal={} no={} adio={} re={} dio={} files={} fal={} ops={}{}{}", seal as u8, no_open as u8, adio as u8, re as u8, pr.dio,
+        fbrh::util::crumb(&format!("seal={} no={} adio={} re={} wb={} dio={} files={} fal={} ops={}{}{}", seal as u8, no_open as u8, adio as u8, re as u8, wb() as u8, pr.dio,
             sizes.iter().map(|s| s.to_string()).collect::<Vec<_>>().join(","), pr.fal, ops.join(";"), if ops.is_empty() { "" } else { ";" }, op));
         let r = a.exec(&op, nfiles, no_open);
         if r == "skip" {
@@ -372,6 +407,7 @@ fn run_case(out: &mut Out, tmp: &str, id: u64, pr: &Probe, seal: bool, no_open: 
                     a.opened.push(0);
                     a.hfile.push(usize::MAX);
                     a.hflags.push(0);
+                    a.happ.push(false);
                 }
             } else {
                 if !r.starts_with('e') && r != "panic" {
@@ -444,7 +480,7 @@ fn run_case(out: &mut Out, tmp: &str, id: u64, pr: &Probe, seal: bool, no_open: 
         }
     }
     let szs: Vec<String> = sizes.iter().map(|s| s.to_string()).collect();
-    let line = format!("seal={} no={} adio={} re={} dio={} files={} fal={} ops={}", seal as u8, no_open as u8, adio as u8, re as u8, pr.dio, szs.join(","), pr.fal, ops.join(";"));
+    let line = format!("seal={} no={} adio={} re={} wb={} dio={} files={} fal={} ops={}", seal as u8, no_open as u8, adio as u8, re as u8, wb() as u8, pr.dio, szs.join(","), pr.fal, ops.join(";"));
     let mut seen = std::collections::HashSet::new();
     for (key, what) in &oracle {
         if seen.insert(key.clone()) {
@@ -456,6 +492,7 @@ fn run_case(out: &mut Out, tmp: &str, id: u64, pr: &Probe, seal: bool, no_open: 
     }
     out.stat(&format!("seal:{}", seal as u8));
     out.stat(&format!("no_open:{}", no_open as u8));
+    out.stat(&format!("writeback:{}", wb() as u8));
     for (op, o) in ops.iter().zip(outs.iter()) {
         let p: Vec<&str> = op.split(':').collect();
         let res = if o.starts_with("ok") { "ok" } else { o.split('~').next().unwrap_or("") };
@@ -495,6 +532,7 @@ fn main() {
             let kv: HashMap<&str, &str> = line.split(' ').filter_map(|t| t.split_once('=')).collect();
             let sizes: Vec<u64> = kv.get("files").copied().unwrap_or("").split(',').filter_map(|s| s.parse().ok()).collect();
             let ops: Vec<String> = kv.get("ops").copied().unwrap_or("").split(';').filter(|s| !s.is_empty()).map(|s| s.to_string()).collect();
+            WB.store(kv.get("wb").copied() == Some("1"), std::sync::atomic::Ordering::Relaxed);
             run_case(&mut out, &tmp.0, i as u64, &pr, kv.get("seal").copied() != Some("0"), kv.get("no").copied() == Some("1"),
                      kv.get("adio").copied() != Some("0"), kv.get("re").copied() == Some("1"), &sizes, None, Some(ops));
         }
@@ -506,6 +544,9 @@ fn main() {
         let seal = i % 8 != 7; // one case in eight runs unsealed: validates the host laws of the model
         let no_open = i % 4 == 1;
         let adio = i % 16 != 5;
+        // one case in six: writeback cache configured and negotiated (descriptors are opened
+        // without O_APPEND and read-write; check_fd_flags may put O_APPEND back)
+        WB.store(i % 6 == 2, std::sync::atomic::Ordering::Relaxed);
         let k = 3 + r.below(4) as usize;
         let sizes: Vec<u64> = (0..k).map(|_| *r.pick(&SIZES)).collect();
         // one case in five runs in the client's second session (INIT, DESTROY, INIT on the same server)
